@@ -167,6 +167,16 @@ pub fn gen_case(t: &mut Tape) -> Case {
     } else {
         ("", "")
     };
+    // a `&mut self` method (delegation to `Self`): `&mut Impl<T>` has to become `&mut T`
+    let mut_method = !dynamic && t.chance(1, 5);
+    let (mut_decl, mut_impl) = if mut_method {
+        (
+            "    fn bump(&mut self, x: i32) -> String;\n",
+            "    fn bump(&mut self, x: i32) -> String { let __r = format!(\"BUMP|{}|{}\", rt::addr(self), x); rt::trace(__r.clone()); __r }\n",
+        )
+    } else {
+        ("", "")
+    };
     // the supertrait has a (provided) method of the same name as the trait's first method
     let sup_same_name = supertrait && t.flip();
     let mut opts: Vec<String> = vec![];
@@ -254,6 +264,7 @@ pub fn gen_case(t: &mut Tape) -> Case {
     src.push_str(borrow_decl);
     src.push_str(phantom_decl);
     src.push_str(selfless_decl);
+    src.push_str(mut_decl);
     src.push_str("}\n");
     if let Some((mi, i, _)) = hygiene {
         src.push_str(&format!("}} }}\n__mk_tr!({});\n", methods[mi].params[i].name));
@@ -274,6 +285,7 @@ pub fn gen_case(t: &mut Tape) -> Case {
         src.push_str(borrow_impl);
         src.push_str(phantom_impl);
         src.push_str(selfless_impl);
+        src.push_str(mut_impl);
         src.push_str("}\n");
     }
     // application types per selector
@@ -316,6 +328,7 @@ pub fn gen_case(t: &mut Tape) -> Case {
             src.push_str(borrow_impl);
             src.push_str(phantom_impl);
             src.push_str(selfless_impl);
+            src.push_str(mut_impl);
             src.push_str("}\n");
         }
     }
@@ -332,6 +345,7 @@ pub fn gen_case(t: &mut Tape) -> Case {
                 sp.push_str(borrow_impl);
                 sp.push_str(phantom_impl);
                 sp.push_str(selfless_impl);
+                sp.push_str(mut_impl);
                 sp.push_str("}\n");
             }
             _ => {
@@ -395,6 +409,14 @@ pub fn gen_case(t: &mut Tape) -> Case {
         src.push_str("/*GEN*/ rt::expect_eq(&mut fails, \"method with type/const parameters named by the caller only: result through Impl<T> vs the provider\", &via, &direct);\n");
         src.push_str("/*GEN*/ rt::expect_eq(&mut fails, \"method with type/const parameters named by the caller only: call trace\", &t_via, &t_direct);\n");
         src.push_str("        if t_direct.len() != 1 { fails.push(format!(\"HARNESS: sized traced {} entries on the provider\", t_direct.len())); }\n");
+        src.push_str("    }\n");
+    }
+    if mut_method {
+        src.push_str("    {\n        let mut mapp = ::entrait::Impl::new(mk_app());\n        let _ = rt::take();\n        let direct = Tr::bump(&mut *mapp, 9);\n        let t_direct = rt::take();\n");
+        src.push_str("/*GEN*/ let via = Tr::bump(&mut mapp, 9);\n        let t_via = rt::take();\n");
+        src.push_str("/*GEN*/ rt::expect_eq(&mut fails, \"`&mut self` method: result through Impl<T> vs the provider\", &via, &direct);\n");
+        src.push_str("/*GEN*/ rt::expect_eq(&mut fails, \"`&mut self` method: call trace (same provider)\", &t_via, &t_direct);\n");
+        src.push_str("        if t_direct.len() != 1 { fails.push(format!(\"HARNESS: bump traced {} entries on the provider\", t_direct.len())); }\n");
         src.push_str("    }\n");
     }
     if selfless {
@@ -464,6 +486,9 @@ pub fn gen_case(t: &mut Tape) -> Case {
     if selfless_impl_named {
         classes.push("associated_fn_whose_first_parameter_is_named___impl");
     }
+    if mut_method {
+        classes.push("mut_self_method");
+    }
     if sup_same_name {
         classes.push("supertrait_method_of_the_same_name");
     }
@@ -482,6 +507,9 @@ pub fn gen_case(t: &mut Tape) -> Case {
     }
     if selfless {
         extras.push(if selfless_impl_named { "fn make(__impl: i32, y: i32) -> String" } else { "fn make(x: i32, y: i32) -> String" });
+    }
+    if mut_method {
+        extras.push("fn bump(&mut self, x: i32) -> String");
     }
     if sup_same_name {
         extras.push("[Sup has a provided method named like the first method]");
